@@ -182,7 +182,8 @@ class Emitter:
                 o.append("%syyset_in(%s, yyscanner); yyset_out(%s->out, yyscanner);" % (
                     ind, self.src_fp(op[1]), C))
             o.append("%s%s->slot[0] = %s; %s->slotsrc[0] = %d; %s->bstk[0] = 0; %s->bdepth = 1;" % (
-                ind, C, fl.call("yy_create_buffer", "%s, YY_BUF_SIZE" % self.src_fp(op[1])),
+                ind, C, fl.call("yy_create_buffer", "%s, %s->bufsize ? (int) %s->bufsize : YY_BUF_SIZE"
+                                % (self.src_fp(op[1]), C, C)),
                 C, op[1], C, C))
             o.append("%s%s;" % (ind, fl.call("yy_switch_to_buffer", "(yybuffer) %s->slot[0]" % C)))
         elif k == "newin":
@@ -384,6 +385,12 @@ class Emitter:
             opts.append("interactive")
         elif o.get("interactive") is False:
             opts.append("batch")
+        if o.get("always_interactive"):
+            opts.append("always-interactive")
+        if o.get("never_interactive"):
+            opts.append("never-interactive")
+        if o.get("use_read"):
+            opts.append("read")
         if o.get("bufsize"):
             opts.append("bufsize=%d" % o["bufsize"])
         if o.get("yylmax"):
@@ -609,7 +616,7 @@ class Emitter:
         return H
 
 
-def pack(case, sched=None, flags=0, alloc_fail_at=0, read_faults=()):
+def pack(case, sched=None, flags=0, alloc_fail_at=0, read_faults=(), bufsize=0):
     """Binary input pack for the harness runtime (see vf_load)."""
     sched = list(sched or [])
     b = [struct.pack("<IIII", case["seed"] & 0xFFFFFFFF,
@@ -625,6 +632,7 @@ def pack(case, sched=None, flags=0, alloc_fail_at=0, read_faults=()):
     for s in strs:
         b.append(struct.pack("<I", len(s)) + bytes(s))
     b.append(struct.pack("<I", alloc_fail_at))
+    b.append(struct.pack("<I", bufsize))
     b.append(struct.pack("<I", len(read_faults)))
     for s, at, en in read_faults:
         b.append(struct.pack("<III", s, at, en))
